@@ -2,6 +2,8 @@ import TTModel.C17_Codec
 import TTModel.C17_Resume
 import TTGen.C17_StateKeys
 import TTProofs.Lemmas.C17_Codec
+import TTModel.C17_Reinject
+import TTProofs.Lemmas.C17_Reinject
 /-!
 # C17 — a checkpoint restores the whole run state; resuming continues the same run
 
@@ -253,6 +255,59 @@ theorem restore_through_checkpoint (dflt : DType) (c : ClassKeys) (hc : c ∈ cl
       (fun e he => hv e (List.mem_filter.mp he).1)
     obtain ⟨st', h1, h2, _⟩ := load_after_state_dict c hok hd en hen cv st0
     exact ⟨_, st', by rw [codec_roundtrip]; exact hcanon, h1, h2⟩
+
+/-! ## re-injection of the saved tensors into the specification (`main` → `update_parameters`) -/
+
+/-- **reinject_restores**: a `Parameter` entry of the specification whose id is in the checkpoint is rebuilt by
+`Parameter.from_json` from the checkpoint's `tensor` (whatever constructor the entry used before: `full`, `zeros`,
+`ones_like`, … are deleted, so the `tensor` branch is taken), with the id of the entry, the dtype the
+SPECIFICATION names — or the one torch infers under the default dtype when it names none — and the
+`nn` flag of the specification.  Hence the restart gives back the saved parameter exactly when that dtype and flag
+are those of the saved tensor. -/
+theorem reinject_restores (dflt : DType) (ck : String → Option JKVs) (kvs saved : JKVs) (i : String) (d : Json)
+    (data : Val) (hspec : isParamSpec kvs = true) (hid : kvs.lookup "id" = some (.str i))
+    (hck : ck i = some saved) (hten : saved.lookup "tensor" = some d) (hdec : decode dflt d = some data) :
+    paramFromSpec dflt (updateParams ck (.obj kvs)) =
+      match kvs.lookup "dtype" with
+      | none => some (.param i (inferDType dflt data) (match kvs.lookup "nn" with | some (.bool true) => true | _ => false) data)
+      | some (.str s) => (DType.parseFull s).map fun dt =>
+          .param i dt (match kvs.lookup "nn" with | some (.bool true) => true | _ => false) data
+      | some _ => none := by
+  simp only [updateParams, hspec, hid, hck, hten, ↓reduceIte, paramFromSpec]
+  have hgen : generatorKeys.any (fun k => (((kvs.keepOnly keptKeys).snoc "tensor" d).lookup k).isSome) = false := by
+    have hnone : ∀ k, keptKeys.contains k = false → k ≠ "tensor" →
+        ((kvs.keepOnly keptKeys).snoc "tensor" d).lookup k = none := by
+      intro k h1 h2; rw [lookup_reinjected, h1]; simp [h2]
+    simp only [generatorKeys, List.any_cons, List.any_nil,
+      hnone "full_like" (by decide) (by decide), hnone "full" (by decide) (by decide),
+      hnone "zeros_like" (by decide) (by decide), hnone "zeros" (by decide) (by decide),
+      hnone "ones_like" (by decide) (by decide), hnone "ones" (by decide) (by decide),
+      hnone "eye" (by decide) (by decide), hnone "eye_like" (by decide) (by decide),
+      hnone "arange" (by decide) (by decide), Option.isSome_none, Bool.or_self]
+  rw [hgen]
+  simp only [Bool.false_eq_true, ↓reduceIte, lookup_reinjected]
+  have h1 : keptKeys.contains "id" = true := by decide
+  have h2 : keptKeys.contains "tensor" = false := by decide
+  have h3 : keptKeys.contains "nn" = true := by decide
+  have h4 : keptKeys.contains "dtype" = true := by decide
+  simp only [h1, h2, h3, h4, ↓reduceIte, hid, hdec, Bool.false_eq_true]
+  rcases kvs.lookup "dtype" with _ | j
+  · rfl
+  · cases j <;> rfl
+
+/-- … in particular for a checkpoint entry written by `ParameterEncoder` for the parameter
+`param i dt nn data0`: the data come back as their canonical image -/
+theorem reinject_saved_parameter (dflt : DType) (ck : String → Option JKVs) (kvs : JKVs) (i : String) (dt : DType)
+    (nn : Bool) (data0 data : Val) (hspec : isParamSpec kvs = true) (hid : kvs.lookup "id" = some (.str i))
+    (hck : ck i = some (match encode (.param i dt nn data0) with | .obj s => s | _ => .nil))
+    (hcanon : canon dflt data0 = some data) (hdt : kvs.lookup "dtype" = some (.str dt.name))
+    (hnn : kvs.lookup "nn" = some (.bool nn)) :
+    paramFromSpec dflt (updateParams ck (.obj kvs)) = some (.param i dt nn data) := by
+  have hten : (match encode (.param i dt nn data0) with | .obj s => s | _ => .nil).lookup "tensor" = some (encode data0) := by
+    simp [encode, JKVs.lookup]
+  have hdec : decode dflt (encode data0) = some data := by rw [codec_roundtrip]; exact hcanon
+  rw [reinject_restores dflt ck kvs _ i _ data hspec hid hck hten hdec, hdt, hnn]
+  cases dt <;> cases nn <;> simp [DType.parseFull, DType.name]
 
 /-! ## torch optimiser state: keyed by parameter index -/
 
